@@ -126,6 +126,14 @@ def h_transitions(n: int, k1: int, h1: int, f1: int, j1: int, k2: int, h2: int, 
     return True
 
 
+def _use_provider(pytz_provider):
+    from icalendar.timezone import tzp
+    if pytz_provider:
+        tzp.use_pytz()
+    else:
+        tzp.use_zoneinfo()
+
+
 _CAL = """BEGIN:VCALENDAR
 VERSION:2.0
 PRODID:x
@@ -147,32 +155,33 @@ DTSTART;TZID=%s:20200601T120000
 END:VEVENT"""
 
 
-def h_cache(pytz_provider: bool, id1: int, off1: int, id2: int, off2: int, third: bool) -> bool:
+def h_cache(pytz_provider: bool, id1: int, off1: int, id2: int, off2: int, third: bool, reset: bool) -> bool:
     """
     Calendars that define custom TZIDs are parsed one after the other in one process: the DTSTART
     of each calendar gets the offset of the VTIMEZONE contained in the SAME calendar.
     (Known findings C12-K1 / C12-K2 are outside this condition: an earlier calendar defining the same
-    TZID differently, and a VTIMEZONE standing after the event that uses it.)
+    TZID differently, and a VTIMEZONE standing after the event that uses it.)  With reset=True the
+    provider is selected again between the calendars (TZP.use_* documents a fresh cache): then even the
+    SAME custom TZID with a different definition must get its own calendar's offsets.
 
     pre: 0 <= id1 <= 1 and 0 <= id2 <= 1
     pre: 1 <= off1 <= 3 and 1 <= off2 <= 3
-    pre: id1 != id2 or off1 == off2
+    pre: id1 != id2 or off1 == off2 or reset
     pre: pinned("pytz_provider", pytz_provider) and pinned("third", third)
     post: _
     """
     from icalendar import Calendar
     from icalendar.timezone import tzp
     pytz_provider = pin("pytz_provider", pytz_provider); third = pin("third", third)
-    if pytz_provider:
-        tzp.use_pytz()
-    else:
-        tzp.use_zoneinfo()
+    _use_provider(pytz_provider)
     try:
         ids = ["Custom/Alpha", "/custom/Beta"]
         seq = [(ids[_c(id1, 0, 1)], _c(off1, 1, 3)), (ids[_c(id2, 0, 1)], _c(off2, 1, 3))]
-        if third:
+        if third and not (reset and seq[0][0] == seq[1][0] and seq[0][1] != seq[1][1]):
             seq.append(seq[0])
-        for tzid, off in seq:
+        for n_, (tzid, off) in enumerate(seq):
+            if reset and n_ > 0:
+                _use_provider(pytz_provider)
             text = _CAL % (_VTZ % (tzid, off, off, off) + "\n" + _EV % tzid)
             cal = Calendar.from_ical(text)
             dt = cal.events[0].start
